@@ -4,7 +4,8 @@
   Theorems about the hand model `SV.Model.DM` (HLN rational core, CI arithmetic in `Fl`, `_next_regular`), tied to
   the source by the differential correspondence check.  `sqrt` is uninterpreted in the rational model: the statistic
   is characterised by its square (`statSq`) and its sign (`statSign`); section 3 restates the laws over ℝ with
-  `Real.sqrt`.  Not covered by any theorem: the HG method (scipy least-squares fit), the FFT, scipy's cdf/ppf.
+  `Real.sqrt`.  Section 6: the HG density / statistic GIVEN the fitted parameters.  Not covered by any theorem: the HG
+  fit itself (scipy least-squares), the FFT, scipy's cdf/ppf.
 -/
 import ScoresVerif.Lemmas.DieboldMariano
 import Mathlib.Analysis.Real.Sqrt
@@ -212,5 +213,59 @@ theorem v_hat_from_autocovariances (d : List Rat) (h : Nat) :
   simp only
   rw [this]
   ring
+
+/-! ## 6. The Hering–Genton density GIVEN the fitted parameters (σ², ρ = exp(−3/θ)); the fit itself is not modelled -/
+
+theorem hg_density_eq (sigmaSq rho : Rat) (m : Nat) :
+    SV.Spec.DM.hgDensityLags sigmaSq rho m = sigmaSq * (1 + 2 * SV.Spec.DM.lagSum rho (m - 1)) := rfl
+
+/-- "positivity is guaranteed": for σ² > 0 and ρ ≥ 0 the density estimate is positive (≥ σ²), so the HG statistic is finite -/
+theorem hg_density_pos {sigmaSq rho : Rat} (hs : 0 < sigmaSq) (hr : 0 ≤ rho) (n : Nat) :
+    0 < SV.Spec.DM.hgDensity sigmaSq rho n := by
+  unfold SV.Spec.DM.hgDensity; rw [hg_density_eq]
+  have := SV.Spec.DM.lagSum_nonneg hr (n - 1)
+  apply mul_pos hs; linarith
+
+example : (0 : Rat) < 4 ∧ (0 : Rat) ≤ 1 / 2 := by norm_num
+
+/-- summing the fitted model over fewer lags (e.g. only the fitting lags 0 … max_lag−1 instead of all lags 0 … n−1)
+    gives a strictly smaller density for every ρ > 0 — hence a strictly larger |statistic| -/
+theorem hg_density_truncation_lt {sigmaSq rho : Rat} (hs : 0 < sigmaSq) (hr : 0 < rho) {m n : Nat} (hm : 1 ≤ m) (hmn : m < n) :
+    SV.Spec.DM.hgDensityLags sigmaSq rho m < SV.Spec.DM.hgDensity sigmaSq rho n := by
+  unfold SV.Spec.DM.hgDensity; rw [hg_density_eq, hg_density_eq]
+  have : SV.Spec.DM.lagSum rho (m - 1) < SV.Spec.DM.lagSum rho (n - 1) := SV.Spec.DM.lagSum_strictMono hr (by omega)
+  apply mul_lt_mul_of_pos_left _ hs; linarith
+
+example : (0 : Rat) < 1 ∧ (0 : Rat) < 1 / 2 ∧ 1 ≤ 2 ∧ 2 < 4 := by norm_num
+
+/-- concrete instance: σ² = 1, ρ = 1/2, series of length 4: all lags give 11/4, the first two lags only 2 -/
+theorem hg_density_truncation_example :
+    SV.Spec.DM.hgDensity 1 (1 / 2) 4 = 11 / 4 ∧ SV.Spec.DM.hgDensityLags 1 (1 / 2) 2 = 2 := by decide +kernel
+
+/-- geometric closed form: (1 − ρ) · f̂(0) = σ² (1 + ρ − 2ρⁿ) for a series of length n ≥ 1 -/
+theorem hg_density_closed_form (sigmaSq rho : Rat) {n : Nat} (hn : 1 ≤ n) :
+    (1 - rho) * SV.Spec.DM.hgDensity sigmaSq rho n = sigmaSq * (1 + rho - 2 * rho ^ n) := by
+  unfold SV.Spec.DM.hgDensity; rw [hg_density_eq]
+  have h := SV.Spec.DM.lagSum_closed rho (n - 1)
+  have hn' : n - 1 + 1 = n := by omega
+  rw [hn'] at h
+  calc (1 - rho) * (sigmaSq * (1 + 2 * SV.Spec.DM.lagSum rho (n - 1)))
+      = sigmaSq * ((1 - rho) + 2 * ((1 - rho) * SV.Spec.DM.lagSum rho (n - 1))) := by ring
+    _ = sigmaSq * (1 + rho - 2 * rho ^ n) := by rw [h]; ring
+
+/-- the density scales with σ² and the squared statistic is invariant when series and σ are rescaled together:
+    f̂(0)(c²σ², ρ) = c² f̂(0)(σ², ρ) -/
+theorem hg_density_scale (c sigmaSq rho : Rat) (n : Nat) :
+    SV.Spec.DM.hgDensity (c ^ 2 * sigmaSq) rho n = c ^ 2 * SV.Spec.DM.hgDensity sigmaSq rho n := by
+  unfold SV.Spec.DM.hgDensity SV.Spec.DM.hgDensityLags; ring
+
+/-- negating the series leaves the squared statistic unchanged (the sign flips with the mean) -/
+theorem hg_stat_sq_neg (d : List Rat) (sigmaSq rho : Rat) :
+    SV.Spec.DM.hgStatSq (SV.Model.DM.negate d) sigmaSq rho = SV.Spec.DM.hgStatSq d sigmaSq rho := by
+  unfold SV.Spec.DM.hgStatSq
+  have hl : (SV.Model.DM.negate d).length = d.length := by simp [SV.Model.DM.negate]
+  have hm : SV.Spec.DM.mean (SV.Model.DM.negate d) = - SV.Spec.DM.mean d := by
+    rw [← SV.Model.DM.mean_eq_spec, ← SV.Model.DM.mean_eq_spec, SV.Model.DM.negate_eq_scale, SV.Model.DM.mean_scale]; ring
+  rw [hl, hm]; ring
 
 end SV.Props.C19
